@@ -9,6 +9,38 @@ ALL = ["C%02d" % i for i in range(1, 21)]
 
 # id -> (category, text, note, technique, design_ref)
 CHECKS = {
+    "C02": ("exploration",
+            "Histories of up to 64 concurrent callers issuing gets, mutations and batches carry a unique id per operation; "
+            "the simulated servers derive every response from the request itself, delay responses at random (reordering them "
+            "on each connection), permute results inside multi-responses, mix cellblock / protobuf / compressed payloads, "
+            "zero-cell results and per-action / per-region exceptions. Each caller's result is compared with what the server "
+            "produced for its id. A second workload records put/get register histories and checks them with porcupine.",
+            "Trusted: simulator derives payloads deterministically from the op id; the simulator is linearizable by "
+            "construction. Interleavings are whatever the scheduler and the random delays realise.",
+            "runtime payload-identity monitor on unambiguous histories + porcupine linearizability check", "DESIGN.md §2 C02"),
+    "C05": ("exploration",
+            "Every kind of call with random option combinations, nil/empty qualifiers, values below and above the compression "
+            "chunk, alone and in batches, is sent through the real client; the simulated servers decode every byte with an "
+            "independent framing / KeyValue / block-compression codec and the decoded operation is compared field by field "
+            "with the specification the workload kept. Configurations cover codec none/snappy, TCP and wrapped (non-writev) "
+            "connections, and up to 24 goroutines mixing batched and unbatched calls on one connection.",
+            "Trusted: generated pb package for protobuf fields; independent codec in /verif/sim. Priority is judged only for "
+            "frames of a single call (a multi-request has one header).",
+            "runtime differential decoder on the wire + malformed-stream monitor", "DESIGN.md §2 C05"),
+    "C07": ("fault_enumeration",
+            "Batches whose calls follow per-call outcome scripts across retry rounds (success, fatal error, retry-later, region "
+            "not serving, connection dead before/after execution), with the table dropped between rounds and cancellation at "
+            "three points; the result slice is judged slot by slot against the server-side log: own payload, own error, a "
+            "delivered success or fatal error never replaced, no executed call with the placeholder, flag consistency.",
+            "Outcome scripts and placements are drawn at random (dense for batches of <=12 calls), not exhaustively enumerated.",
+            "runtime per-slot oracle joined with the server-side execution log under scripted faults", "DESIGN.md §2 C07"),
+    "C12": ("fault_enumeration",
+            "The same scripted-fault batches (up to 40 calls, invalid entries at every position) judged on the server-side log "
+            "only: nothing is sent for an invalid batch, actions execute only on the owning region, calls of a region are first "
+            "presented in batch order and re-sent subsets keep batch order, and no call arrives again after its success or "
+            "fatal error was delivered.",
+            "A response counts as received when the server wrote the full frame. Random placement of faults.",
+            "runtime offline checker over the recorded wire log (ordering, at-most-once after delivery)", "DESIGN.md §2 C12"),
     "C01": ("exploration",
             "(1) The real cache lookup used for routing is compared with brute-force containment for every layout of up to "
             "3 boundaries over all keys of length <=2 from {00 , : a ff}, every subset/first-touch order of its regions "
